@@ -1,6 +1,158 @@
+// simsched — compiled WITHOUT any sanitizer instrumentation (see bin/simdriver.py), so that under
+// ThreadSanitizer the hand-off between tasks creates no happens-before edge: two tasks' conflicting
+// accesses are reported although exactly one task runs at a time and the PRNG decided the order.
 #include "sched.hpp"
-int sched_cur() { return 0; }
-bool sched_active() { return false; }
-void sched_point(int) {}
-SchedResult sched_run(const SchedConfig&, const std::vector<std::function<void()>>&) { return SchedResult(); }
-bool sched_run_on_stack(size_t, const std::function<void()>& body, size_t*) { body(); return true; }
+#include <pthread.h>
+#include <linux/futex.h>
+#include <sys/syscall.h>
+#include <sys/mman.h>
+#include <unistd.h>
+#include <signal.h>
+#include <cstdio>
+#include <cstring>
+#include <cstdlib>
+#include <climits>
+
+namespace {
+const int MAXT = 20;
+struct Task {
+  int word = 0;                 // futex: 1 = may run
+  bool finished = true;
+  pthread_t th;
+  unsigned char* map = nullptr; size_t map_len = 0;   // guard page + stack
+  unsigned char* alt = nullptr;
+  const std::function<void()>* body = nullptr;
+};
+Task T[MAXT];
+int g_cur = 0;
+bool g_active = false;
+int g_ntasks = 0;
+SchedConfig g_cfg;
+SchedResult g_res;
+uint64_t g_rng = 0;
+size_t g_choice_i = 0;
+uint64_t g_total_points = 0;
+
+inline uint64_t mix(uint64_t x) { x += 0x9E3779B97F4A7C15ull; x = (x ^ (x >> 30)) * 0xBF58476D1CE4E5B9ull; x = (x ^ (x >> 27)) * 0x94D049BB133111EBull; return x ^ (x >> 31); }
+uint64_t draw() { g_rng = mix(g_rng); return g_rng; }
+
+void fwait(int* w) { while (__atomic_load_n(w, __ATOMIC_ACQUIRE) == 0) syscall(SYS_futex, w, FUTEX_WAIT, 0, nullptr, nullptr, 0); __atomic_store_n(w, 0, __ATOMIC_RELEASE); }
+void fwake(int* w) { __atomic_store_n(w, 1, __ATOMIC_RELEASE); syscall(SYS_futex, w, FUTEX_WAKE, 1, nullptr, nullptr, 0); }
+
+// pick who runs next among unfinished tasks; returns task id or 0 (main) when none is left
+int choose(bool allow_stay, int kind) {
+  int runnable[MAXT]; int n = 0;
+  for (int i = 1; i <= g_ntasks; i++) if (!T[i].finished) runnable[n++] = i;
+  if (n == 0) return 0;
+  uint32_t c;
+  if (g_choice_i < g_cfg.choices.size()) c = g_cfg.choices[g_choice_i]; else c = (uint32_t)(draw() >> 20);
+  g_choice_i++;
+  int next = runnable[c % (uint32_t)n];
+  (void)allow_stay;
+  if (g_res.trace.size() < 4096) g_res.trace.push_back((uint32_t)next);
+  g_res.schedule_hash = mix(g_res.schedule_hash ^ ((uint64_t)next * 0x100 + (uint64_t)kind));
+  return next;
+}
+
+void handoff(int self, int next, int kind) {
+  if (next == self) return;
+  g_res.switches++; if (kind != SP_API && kind >= 0) g_res.switches_inside_call++;
+  g_cur = next;
+  fwake(&T[next].word);
+  fwait(&T[self].word);
+  g_cur = self;
+}
+
+unsigned char* g_guard_lo[MAXT]; unsigned char* g_guard_hi[MAXT];
+
+void* tramp(void* arg) {
+  int id = (int)(intptr_t)arg;
+  stack_t ss; ss.ss_sp = T[id].alt; ss.ss_size = 1 << 16; ss.ss_flags = 0; sigaltstack(&ss, nullptr);
+  fwait(&T[id].word);          // wait to be scheduled for the first time
+  g_cur = id;
+  (*T[id].body)();
+  T[id].finished = true;
+  int next = choose(false, -1);
+  g_cur = next;
+  fwake(&T[next].word);
+  return nullptr;
+}
+
+bool make_stack(Task& t, size_t stack_bytes, int id) {
+  long pg = sysconf(_SC_PAGESIZE);
+  size_t sz = (stack_bytes + (size_t)pg - 1) & ~((size_t)pg - 1);
+  if (sz < (size_t)PTHREAD_STACK_MIN) sz = (size_t)PTHREAD_STACK_MIN;
+  t.map_len = sz + (size_t)pg;
+  t.map = (unsigned char*)mmap(nullptr, t.map_len, PROT_READ | PROT_WRITE, MAP_PRIVATE | MAP_ANONYMOUS, -1, 0);
+  if (t.map == MAP_FAILED) return false;
+  mprotect(t.map, (size_t)pg, PROT_NONE);       // guard page below the stack
+  g_guard_lo[id] = t.map; g_guard_hi[id] = t.map + pg;
+  memset(t.map + pg, 0xCB, sz);                 // paint, to measure use afterwards
+  if (!t.alt) t.alt = (unsigned char*)malloc(1 << 16);
+  return true;
+}
+size_t stack_used(const Task& t) {
+  long pg = sysconf(_SC_PAGESIZE);
+  const unsigned char* lo = t.map + pg; const unsigned char* hi = t.map + t.map_len;
+  const unsigned char* p = lo; while (p < hi && *p == 0xCB) p++;
+  return (size_t)(hi - p);
+}
+}  // namespace
+
+// used by the fault handler in protect.cpp
+int sched_guard_owner(const void* addr) {
+  for (int i = 0; i < MAXT; i++) if (g_guard_lo[i] && (const unsigned char*)addr >= g_guard_lo[i] && (const unsigned char*)addr < g_guard_hi[i]) return i;
+  return -1;
+}
+
+int sched_cur() { return g_cur; }
+bool sched_active() { return g_active; }
+
+void sched_point(int kind) {
+  if (!g_active) return;
+  int self = g_cur; if (self == 0) return;
+  g_res.points[kind]++; g_total_points++;
+  if (g_total_points > g_cfg.max_points) { g_res.budget_exceeded = true; return; }
+  if ((draw() >> 11) % 1000 >= g_cfg.preempt_permille) return;
+  int next = choose(true, kind);
+  handoff(self, next, kind);
+}
+
+SchedResult sched_run(const SchedConfig& cfg, const std::vector<std::function<void()>>& bodies) {
+  g_cfg = cfg; g_res = SchedResult(); g_rng = cfg.rng_seed; g_choice_i = 0; g_total_points = 0;
+  g_ntasks = (int)bodies.size(); if (g_ntasks > MAXT - 1) g_ntasks = MAXT - 1;
+  for (int i = 1; i <= g_ntasks; i++) {
+    Task& t = T[i]; t.word = 0; t.finished = false; t.body = &bodies[(size_t)i - 1];
+    if (!make_stack(t, cfg.stack_bytes, i)) { fprintf(stderr, "HARNESS: cannot map task stack\n"); _exit(2); }
+    pthread_attr_t a; pthread_attr_init(&a);
+    long pg = sysconf(_SC_PAGESIZE);
+    pthread_attr_setstack(&a, t.map + pg, t.map_len - (size_t)pg);
+    if (pthread_create(&t.th, &a, tramp, (void*)(intptr_t)i) != 0) { fprintf(stderr, "HARNESS: pthread_create failed\n"); _exit(2); }
+    pthread_attr_destroy(&a);
+  }
+  g_active = true;
+  T[0].word = 0;
+  int first = choose(false, -1);
+  if (first != 0) { g_cur = first; fwake(&T[first].word); fwait(&T[0].word); }
+  g_cur = 0; g_active = false;
+  for (int i = 1; i <= g_ntasks; i++) { pthread_join(T[i].th, nullptr); munmap(T[i].map, T[i].map_len); T[i].map = nullptr; g_guard_lo[i] = g_guard_hi[i] = nullptr; }
+  return g_res;
+}
+
+bool sched_run_on_stack(size_t stack_bytes, const std::function<void()>& body, size_t* used_bytes) {
+  Task& t = T[MAXT - 1]; t.word = 1; t.finished = false; t.body = &body;
+  if (!make_stack(t, stack_bytes, MAXT - 1)) { fprintf(stderr, "HARNESS: cannot map stack\n"); _exit(2); }
+  struct Arg { const std::function<void()>* b; unsigned char* alt; } arg{&body, t.alt};
+  pthread_attr_t a; pthread_attr_init(&a);
+  long pg = sysconf(_SC_PAGESIZE);
+  pthread_attr_setstack(&a, t.map + pg, t.map_len - (size_t)pg);
+  auto fn = [](void* p) -> void* { Arg* ar = (Arg*)p; stack_t ss; ss.ss_sp = ar->alt; ss.ss_size = 1 << 16; ss.ss_flags = 0; sigaltstack(&ss, nullptr); (*ar->b)(); return nullptr; };
+  int saved = g_cur; g_cur = 0;
+  if (pthread_create(&t.th, &a, fn, &arg) != 0) { fprintf(stderr, "HARNESS: pthread_create failed\n"); _exit(2); }
+  pthread_attr_destroy(&a);
+  pthread_join(t.th, nullptr);
+  g_cur = saved;
+  if (used_bytes) *used_bytes = stack_used(t);
+  munmap(t.map, t.map_len); t.map = nullptr; g_guard_lo[MAXT - 1] = g_guard_hi[MAXT - 1] = nullptr;
+  return true;
+}
